@@ -17,7 +17,7 @@ import z3
 from . import sym
 from .path import Path
 from .source import Source, FuncInfo
-from .values import (HeapList, BoundBuiltin, BoundMethod, BuiltinRef, ClassRef, Closure, ExcVal, FuncRef, Infeasible,
+from .values import (SDict, HeapList, BoundBuiltin, BoundMethod, BuiltinRef, ClassRef, Closure, ExcVal, FuncRef, Infeasible,
                      ModuleRef, NOTIMPL, Obj, Opaque, PDict, PList, SArr, SBool, SInt, SMap, SName, SOpt,
                      SReal, SSeq, SSet, SStrOpaque, SpecFn, Unsupported, num_term, real_term)
 
@@ -140,6 +140,8 @@ class Interp:
             return len(v.items) > 0
         if isinstance(v, HeapList):
             return self.path.branch(self.schema.hl_len(self, v) > 0, desc + " nonempty")
+        if isinstance(v, SDict):
+            return self.path.branch(sym.fn("DICTNONEMPTY", z3.ArraySort(sym.Name, sym.B), sym.B)(v.keys), desc + " nonempty dict")
         if isinstance(v, PDict):
             return len(v.items) > 0
         if isinstance(v, SSeq):
@@ -701,6 +703,10 @@ class Interp:
         return self.ev(s, fr)
 
     def getitem(self, o, k, node=None):
+        if isinstance(o, SOpt):
+            o = self.models.unopt(self, o)
+            if o is None:
+                self.raise_exc("TypeError", "'NoneType' object is not subscriptable")
         if isinstance(o, (Obj, Opaque)):
             return self.call_method(o, "__getitem__", [k], {}, node)
         return self.models.getitem(self, o, k, node)
